@@ -24,6 +24,8 @@ VALUE_GRID = {
     "date": [None, dt.date(2000, 2, 29), dt.date(1900, 1, 1), dt.date(2100, 12, 31), dt.date(1970, 1, 1)],
     "datetime": [None, dt.datetime(2000, 2, 29, 13, 14, 15), dt.datetime(1999, 12, 31, 23, 59, 59), dt.datetime(1970, 1, 1)],
 }
+VALUE_GRID["datetime_ms"] = VALUE_GRID["datetime"]  # Polars source frames with another time unit than microseconds
+VALUE_GRID["datetime_ns"] = VALUE_GRID["datetime"]
 TARGETS = {
     "float64": ["int64", "int32", "int16", "int8", "float32", "str"],
     "int64": ["float64", "float32", "str", "int32", "int16", "int8"],
@@ -31,7 +33,9 @@ TARGETS = {
     "str_int": ["int64", "int32", "float64"],
     "str_float": ["float64"],
     "date": ["datetime", "str"],
-    "datetime": ["date"],
+    "datetime": ["date", "str"],
+    "datetime_ms": ["date", "str"],
+    "datetime_ns": ["date", "str"],
 }
 SRC = {"str_int": "str", "str_float": "str"}
 
